@@ -237,6 +237,22 @@ def _search(rec, ctx):
             for v in PUNCT:
                 check(rec, {"src": "".join(toks[:i] + [v, " "] + toks[i:]), "stream": "diagnostic-neighbourhood"})
 
+    # generated f-string statements (nesting, specs with escapes and quotes, debug fields, continuation lines) and their
+    # single-edit mutations: the f-string scanners are hand-written loops over characters, each of which has to advance
+    from ..gen.fstr import FGen
+
+    def fstrings(rnd):
+        g = FGen(rnd, nonascii=rnd.random() < 0.15)
+        src = g.statement()
+        if rnd.random() < 0.5:
+            src, _ = mutate.mutate(rnd, src, xonsh=rnd.random() < 0.2, nasty=rnd.random() < 0.2)
+        check(rec, {"src": src, "stream": "fstring-statements"})
+
+    drive(st.randoms(use_true_random=False), fstrings, ctx.budget(5000, 60000), ctx.hseed("fstrings"))
+    from ..gen.fstr import text_soup
+
+    drive(st.randoms(use_true_random=False), lambda rnd: check(rec, {"src": text_soup(rnd), "stream": "fstring-text-soup"}), ctx.budget(6000, 80000), ctx.hseed("fsoup"))
+
     # every sequence of up to three clauses after 'try:' (and a sample of four): most are rejected, each by one of the
     # hand-written invalid_try_stmt / invalid_except_stmt alternatives, some only for an earlier py_version
     TRY_CLAUSES = ["except:", "except E:", "except E as e:", "except* E:", "except* (A, B) as g:", "except*:", "except A, B:", "except* A, B:", "else:", "finally:", "except E as e.f:", "except E as (a, b):"]
